@@ -9,6 +9,7 @@ import (
 	"reflect"
 	"sort"
 	"strings"
+	"sync/atomic"
 
 	"github.com/paulmach/orb"
 	"github.com/paulmach/orb/geojson"
@@ -191,6 +192,19 @@ func emptyNonCollection(g orb.Geometry) bool {
 }
 
 var kept retain.Keeper
+
+// countingJSON behaves like encoding/json and counts its calls.
+type countingJSON struct{ n int64 }
+
+func (h *countingJSON) Marshal(v interface{}) ([]byte, error) {
+	atomic.AddInt64(&h.n, 1)
+	return json.Marshal(v)
+}
+func (h *countingJSON) Unmarshal(data []byte, v interface{}) error {
+	atomic.AddInt64(&h.n, 1)
+	return json.Unmarshal(data, v)
+}
+func (h *countingJSON) calls() int64 { return atomic.LoadInt64(&h.n) }
 
 func checkGeometry(c *mc.Ctx, g orb.Geometry) {
 	desc := fmt.Sprintf("geometry=%T %v", g, g)
@@ -458,6 +472,29 @@ func main() {
 		checkGeometry(c, g)
 		nt(c, g)
 	})
+	// configuration: the package-level CustomJSONMarshaler / CustomJSONUnmarshaler hooks. With a hook that
+	// behaves exactly like encoding/json every round trip must come out the same, and the hooks must be the
+	// ones doing the work (parts run one after the other, so the variables are constant during the part)
+	hook := &countingJSON{}
+	geojson.CustomJSONMarshaler, geojson.CustomJSONUnmarshaler = hook, hook
+	r.Explore("custom-json-hooks", "CustomJSONMarshaler / CustomJSONUnmarshaler set to a call-counting wrapper of encoding/json: full product of the 8 non-collection kinds (k=2,m=2), collections within 5 deviations, and the feature grammar within 3 deviations", mc.Opts{MaxDev: 7, Split: 3, NewLocal: newLocal}, func(c *mc.Ctx) {
+		l := c.Local().(*loc)
+		l.reset(0)
+		before := hook.calls()
+		switch c.Choose(3) {
+		case 0:
+			checkGeometry(c, l.g.Kind(c, c.Choose(gg.KCollection), 0, true))
+		case 1:
+			checkGeometry(c, l.g.Kind(c, gg.KCollection, 0, true))
+		case 2:
+			checkFeature(c, genFeature(c))
+		}
+		if hook.calls() == before {
+			c.Failf("hooks-ignored", "a JSON round trip did not go through the configured CustomJSONMarshaler / CustomJSONUnmarshaler")
+		}
+		c.NonTrivial()
+	})
+	geojson.CustomJSONMarshaler, geojson.CustomJSONUnmarshaler = nil, nil
 	dev := ev.Pick(r, 8, 9)
 	r.Explore("geometry-collections", fmt.Sprintf("collections nested to depth 3 within %d deviations", dev), mc.Opts{MaxDev: dev, Split: 3, NewLocal: newLocal}, func(c *mc.Ctx) {
 		l := c.Local().(*loc)
